@@ -22,7 +22,7 @@ def main():
     ap.add_argument('--workers', type=int)
     ap.add_argument('--budget', type=float)
     a = ap.parse_args()
-    if os.environ.get('PYTHONHASHSEED') != '0':
+    if os.environ.get('PYTHONHASHSEED') != '0' and not os.environ.get('VERIF_KEEP_HASHSEED'):
         # hash randomisation must not be able to influence a run: pin it and re-exec
         os.environ['PYTHONHASHSEED'] = '0'
         os.execv(sys.executable, [sys.executable, '-B'] + sys.argv)
